@@ -140,6 +140,9 @@ pub(crate) fn blank(s: &Snap) -> Snap {
     Snap { address: s.address, auto: s.auto, state: UNCONF, n_pages: 0, pend_len: 0, chunks: 0, width: 0, height: 0, ty: 11 }
 }
 
+/// dimensions of the 11 supported sign types (documented sizes; index = position in TYPES)
+pub(crate) const TYPE_DIMS: [(u32, u32); 11] = [(112, 16), (98, 16), (90, 7), (30, 10), (23, 10), (30, 7), (160, 16), (140, 16), (96, 8), (48, 16), (40, 12)];
+
 /// The state-level part of the inductive invariant of C13 (see inv() in testing_vsign.rs, which adds the
 /// page-size conjunct that needs the real pages).
 pub(crate) fn snap_inv(s: &Snap) -> bool {
@@ -147,6 +150,8 @@ pub(crate) fn snap_inv(s: &Snap) -> bool {
     let hygiene = (receiving || s.state == READY_RESET || s.chunks == 0) && (s.state == PIX_PROG || s.state == READY_RESET || s.pend_len == 0);
     let blank_ok = s.state != UNCONF || (s.n_pages == 0 && s.pend_len == 0 && s.chunks == 0 && s.width == 0 && s.height == 0 && s.ty == 11);
     let config_phase = s.state == UNCONF || s.state == CFG_PROG || s.state == CFG_RECV || s.state == CFG_FAIL;
-    hygiene && blank_ok && (!config_phase || s.n_pages == 0)
+    // a recorded type is always recorded together with that type's size
+    let type_ok = s.ty >= 11 || (s.width, s.height) == TYPE_DIMS[s.ty];
+    hygiene && blank_ok && (!config_phase || s.n_pages == 0) && type_ok
 }
 // ---- end shared_spec.rs
